@@ -17,8 +17,9 @@ REPLAY_DIR = os.environ.get("VERIF_REPLAY_DIR") or os.path.join(ROOT, "replay")
 KNOWN_FILE = os.path.join(ROOT, "known_findings.txt")
 
 
-class Timeout(Exception):
-    pass
+class Timeout(BaseException):
+    """raised by the watchdog's one-shot alarm.  Not an Exception: a generic `except Exception` in the code under test or in
+    a recording wrapper must not be able to swallow it (a swallowed alarm never fires again and the run spins for ever)"""
 
 
 class watchdog:
